@@ -1,7 +1,7 @@
 #!/bin/bash
 # tools/final_refresh.sh — run every registered quick check in /verif against /repo (evidence files are rewritten), sequentially.
 cd /verif
-for c in $(python3 -c "import json;print(' '.join(x['property_id'] for x in json.load(open('MANIFEST.json'))['checks']))"); do
+for c in $(python3 -c "import json;ids=[x['property_id'] for x in json.load(open('MANIFEST.json'))['checks']];ids=[i for i in ids if i!='C06']+['C06'];print(' '.join(ids))"); do
   /usr/bin/time -f "$c %es" ./check $c --tier quick > work/final_$c.log 2>&1; rc=$?
   echo "$c rc=$rc $(grep -c KNOWN-FINDING work/final_$c.log) known $(tail -n 3 work/final_$c.log | grep -o '[0-9.]*s$' | tail -1)"
 done
